@@ -15,8 +15,9 @@ variable {inp : Array Char}
 def isEndChar (c : Char) : Bool :=
   c == ')' || c == '=' || c == '!' || c == '<' || c == '>' || c == '&' || c == '|'
 
-/-- characters that may follow a step: the next step or function, or the end of the path -/
-def isStopChar (c : Char) : Bool := c == '.' || c == '[' || isEndChar c
+/-- characters that may follow a step: the next step or function, the end of the path, or a blank
+    (trailing blanks of the whole path) -/
+def isStopChar (c : Char) : Bool := c == '.' || c == '[' || isEndChar c || c == ' '
 
 def PathStop (r : List Char) : Prop := r = [] ∨ startsWith isEndChar r = true
 def StepStop (r : List Char) : Prop := r = [] ∨ startsWith isStopChar r = true
@@ -27,12 +28,12 @@ theorem PathStop.stepStop {r : List Char} (h : PathStop r) : StepStop r := by
   · exact .inr (startsWith_of_true (by intro c hc; simp [isStopChar, hc]) h)
 
 theorem isStopChar_cases (c : Char) (h : isStopChar c = true) :
-    c = '.' ∨ c = '[' ∨ c = ')' ∨ c = '=' ∨ c = '!' ∨ c = '<' ∨ c = '>' ∨ c = '&' ∨ c = '|' := by
+    c = '.' ∨ c = '[' ∨ c = ')' ∨ c = '=' ∨ c = '!' ∨ c = '<' ∨ c = '>' ∨ c = '&' ∨ c = '|' ∨ c = ' ' := by
   simpa [isStopChar, isEndChar, or_assoc] using h
 
 theorem isStopChar_facts (c : Char) (h : isStopChar c = true) :
-    isSign c = true ∧ c ≠ '\\' ∧ c ≠ '(' ∧ c ≠ ' ' ∧ isFnChar c = false := by
-  rcases isStopChar_cases c h with rfl | rfl | rfl | rfl | rfl | rfl | rfl | rfl | rfl <;> decide
+    isSign c = true ∧ c ≠ '\\' ∧ c ≠ '(' ∧ isFnChar c = false := by
+  rcases isStopChar_cases c h with rfl | rfl | rfl | rfl | rfl | rfl | rfl | rfl | rfl | rfl <;> decide
 
 theorem StepStop.dotStops {r : List Char} (h : StepStop r) : DotStops r := by
   rcases h with h | h
@@ -54,14 +55,10 @@ theorem StepStop.noCall {r : List Char} (h : StepStop r) : ['(', ')'].isPrefixOf
       have : ('(' == d) = false := by simp; exact fun h => this h.symm
       rw [this]; rfl
 
-theorem StepStop.noSp {r : List Char} (h : StepStop r) : NoSp r := by
+theorem PathStop.noSp {r : List Char} (h : PathStop r) : NoSp r := by
   rcases h with h | h
   · subst h; rfl
-  · cases r with
-    | nil => rfl
-    | cons d r' => exact noSp_cons (isStopChar_facts d h).2.2.2.1 r'
-
-theorem PathStop.noSp {r : List Char} (h : PathStop r) : NoSp r := h.stepStop.noSp
+  · exact noSp_of_true (by decide) h
 
 /-- at the end of a path nothing that starts a step or a function follows -/
 theorem PathStop.noDotBracket {r : List Char} (h : PathStop r) :
